@@ -27,7 +27,6 @@ Definition ncmp (a b : N) : option comparison := Some (N.compare a b).
 (* compare_values : Ok ordering | Err NotComparable *)
 Definition compare_values (a b : pv) : option comparison :=
   match a, b with
-  | PNull _, PNull _ => Some Eq
   | PInt _ i, PInt _ o => Some (Z.compare i o)
   | PString _ s, PString _ o => Some (String.compare s o)
   | PFloat _ f, PFloat _ s => f64_cmp f s
@@ -88,6 +87,7 @@ Fixpoint compare_eq (a b : pv) {struct a} : outcome bool :=
            end) l1 l2
       else Done false
   | PBool _ b1, PBool _ b2 => Done (Bool.eqb b1 b2)
+  | PNull _, PNull _ => Done true
   | PRegex _ r, PRegex _ s => Done (String.eqb r s)
   | PInt _ v, PRangeInt _ lo hi i => Done (is_within zcmp lo hi i v)
   | PFloat _ v, PRangeFloat _ lo hi i => Done (is_within f64_cmp lo hi i v)
@@ -133,6 +133,7 @@ Fixpoint partial_eq (a b : pv) {struct a} : outcome bool :=
            end) l1 l2
       else Done false
   | PBool _ b1, PBool _ b2 => Done (Bool.eqb b1 b2)
+  | PNull _, PNull _ => Done true
   | PString _ s, PRegex _ r => regex_partial_eq r s
   | PRegex _ r, PString _ s => regex_partial_eq r s
   | PRegex _ r, PRegex _ s => Done (String.eqb r s)
